@@ -378,7 +378,7 @@ def run_item(harness, item, *, tier="quick", max_paths=256, timeout_ms=20000, ce
                         res.syntactic += 1
                 if ob.impl is not None and not z3.is_rational_value(ob.impl) or (ob.impl is None and not (z3.is_true(ob.goal) or z3.is_false(ob.goal))):
                     res.nontrivial += 1
-                if len(res.samples) < 6 and (not v.syntactic or len(res.samples) < 2):
+                if (len(res.samples) < 8 and not v.syntactic) or len(res.samples) < 2 or (len(res.samples) < 5 and not z3.is_true(ob.goal) and ob.impl is not None):
                     res.samples.append({"item": str(item)[:200], "label": ob.label, "kind": ob.kind,
                                         "goal": ob.goal.sexpr()[:300], "verdict": v.status,
                                         "cells": v.ncells, "ms": round(v.ms, 2)})
